@@ -548,15 +548,15 @@ func c11Order(c *core.Ctx) {
 	vb := [][]string{{"BLOCK_NUM", "BLOCK_POS"}}
 	p := "l1infotreesync"
 	checkOrdered(c, rule, []orderedSpec{
-		{p, "processor", "GetLatestInfoUntilBlock", "L1INFO_LEAF", "DESC", []string{"BLOCK_NUM <= $1"}, leaf},
-		{p, "processor", "getLastIndex", "L1INFO_LEAF", "DESC", nil, leaf},
-		{p, "processor", "GetLastInfo", "L1INFO_LEAF", "DESC", nil, leaf},
-		{p, "processor", "GetFirstInfo", "L1INFO_LEAF", "ASC", nil, leaf},
-		{p, "processor", "GetFirstInfoAfterBlock", "L1INFO_LEAF", "ASC", []string{"BLOCK_NUM >= $1"}, leaf},
-		{p, "processor", "GetFirstL1InfoWithRollupExitRoot", "L1INFO_LEAF", "ASC", []string{"ROLLUP_EXIT_ROOT = $1"}, leaf},
-		{p, "processor", "GetLastVerifiedBatches", "VERIFY_BATCHES", "DESC", []string{"ROLLUP_ID = $1"}, vb},
-		{p, "processor", "GetFirstVerifiedBatches", "VERIFY_BATCHES", "ASC", []string{"ROLLUP_ID = $1"}, vb},
-		{p, "processor", "GetFirstVerifiedBatchesAfterBlock", "VERIFY_BATCHES", "ASC", []string{"BLOCK_NUM >= $2", "ROLLUP_ID = $1"}, vb},
+		{p, "processor", "GetLatestInfoUntilBlock", "L1INFO_LEAF", "DESC", []string{"BLOCK_NUM <= $1"}, leaf, []string{"blockNum"}},
+		{p, "processor", "getLastIndex", "L1INFO_LEAF", "DESC", nil, leaf, nil},
+		{p, "processor", "GetLastInfo", "L1INFO_LEAF", "DESC", nil, leaf, nil},
+		{p, "processor", "GetFirstInfo", "L1INFO_LEAF", "ASC", nil, leaf, nil},
+		{p, "processor", "GetFirstInfoAfterBlock", "L1INFO_LEAF", "ASC", []string{"BLOCK_NUM >= $1"}, leaf, []string{"blockNum"}},
+		{p, "processor", "GetFirstL1InfoWithRollupExitRoot", "L1INFO_LEAF", "ASC", []string{"ROLLUP_EXIT_ROOT = $1"}, leaf, []string{"(github.com/ethereum/go-ethereum/common.Hash).Hex(rollupExitRoot)"}},
+		{p, "processor", "GetLastVerifiedBatches", "VERIFY_BATCHES", "DESC", []string{"ROLLUP_ID = $1"}, vb, []string{"rollupID"}},
+		{p, "processor", "GetFirstVerifiedBatches", "VERIFY_BATCHES", "ASC", []string{"ROLLUP_ID = $1"}, vb, []string{"rollupID"}},
+		{p, "processor", "GetFirstVerifiedBatchesAfterBlock", "VERIFY_BATCHES", "ASC", []string{"BLOCK_NUM >= $2", "ROLLUP_ID = $1"}, vb, []string{"rollupID", "blockNum"}},
 	})
 }
 
